@@ -69,7 +69,7 @@ func verify(f *os.File, opts signers.VerifyOpts) ([]*signers.Signature, error) {
 			return nil, errors.New("empty APK signing block")
 		}
 		for i, signer := range signerList {
-			sig, err := signer.Verify(nil)
+			sig, err := signer.Verify(inz)
 			if err != nil {
 				return nil, fmt.Errorf("APK signature #%d: %w", i+1, err)
 			}
